@@ -413,6 +413,20 @@ def r4(ctx):
         num = list(nums)
         okn = len(num) == 1 and match(num[0], Call('Ord::max', Call('Vec::len', ANY), Const(1)))
         ctx.require(okn, s, 'seq-count', 'the divisor is the clamped number of sequences', 'divisors: %s' % [show_in(s, x) for x in num])
+        # .. and the vector whose length is the divisor gets one entry for EVERY sequence: the push is on every path of the per-sequence code
+        from rules.common import closures_in
+        pushers = [(x, t) for x in [s] + closures_in(ctx, s) for t in x.calls(r'Vec::push$')]
+        okp = len(pushers) == 1
+        if okp:
+            x, t = pushers[0]
+            lp = cfg.innermost_loop(x, t.bb)
+            if x is not s:
+                okp = all(cfg.must_pass(x, 0, r, via_blocks=[t.bb]) for r in x.returns)
+            else:
+                okp = lp is not None and all(cfg.must_pass(x, lp.header, l, via_blocks=[t.bb], from_succ=True) for l in lp.latches)
+        ctx.require(okp, s, 'seq-count-all', 'every sequence adds one entry to the list whose length is the divisor',
+                    'the list whose length divides the sums does not get an entry for every sequence (an early return for "empty" sequences skips the push): the sum still '
+                    'counts 1.0 for them, so the average exceeds 1')
         for i, p in enumerate(parts):
             el = summed(s, p[2], 0.0) if p[0] == 'bin' and p[1] == 'Div' else None
             if el is None:
